@@ -1,6 +1,6 @@
 (* Wire entry points of the C15 model (weighted UQ quadrature). *)
 From Coq Require Import ZArith List Bool QArith Qcanon.
-From SG Require Import Base.Sx Base.QcUtil Model.Trap Model.UQ.
+From SG Require Import Base.Sx Base.QcUtil Model.Trap Model.UQ Model.UQGrid.
 Import ListNotations.
 Open Scope Z_scope.
 
@@ -36,7 +36,28 @@ Definition of_ivals (l : list ival) : sx :=
    sub 2: (boundary a c b (x ...))         -> same for the triangle distribution
    sub 3: (a b (x ...))                    -> (1 (w ...)) | (0)     modified basis (uniform only)
    sub 4: (a b mid0)                       -> (1 mid) | (0)          get_middle_weighted, 0 = NaN
-   sub 5: ((mom ...))                      -> ((E ...) (Var ...))    calculate_expectation_and_variance on the combined integral *)
+   sub 5: ((mom ...))                      -> ((E ...) (Var ...))    calculate_expectation_and_variance on the combined integral
+   sub 6: (boundary mb ((a b ivs) ...))    -> (1 ((w ...) ...) (tw ...)) | (0)   set_grid of a d-dimensional grid: self.weights per dimension and get_weights
+   sub 7: (boundary ((coeff ((a b ivs) ...)) ...)) -> (1 (W ...)) | (0)        get_points_and_weights of the combination: combined weights
+   sub 8: (K (w ...) ((v ...) ...))        -> ((integral ...) ((E ...) (Var ...)) ((E ...) (Var ...)))   integral of the expectation-variance function
+                                              over the rule, calculate_expectation_and_variance through the combined integral and through nodes/weights *)
+Definition get_dimreq (s : sx) : option dimreq :=
+  match s with
+  | Lv [a; b; Lv ivs] =>
+    match get_Qc a, get_Qc b, opt_all (map get_ival ivs) with
+    | Some a, Some b, Some ivs => Some {| d_a := a; d_b := b; d_ivs := ivs |}
+    | _, _, _ => None
+    end
+  | _ => None
+  end.
+Definition get_dims (s : sx) : option (list dimreq) :=
+  match s with Lv l => opt_all (map get_dimreq l) | _ => None end.
+Definition get_comp (s : sx) : option (Qc * list dimreq) :=
+  match s with
+  | Lv [c; dims] => match get_Qc c, get_dims dims with Some c, Some dims => Some (c, dims) | _, _ => None end
+  | _ => None
+  end.
+Definition of_ev (p : list Qc * list Qc) : sx := Lv [of_LQc (fst p); of_LQc (snd p)].
 Definition entry_C15 (sub : Z) (arg : sx) : sx :=
   match sub, arg with
   | 0, Lv [bd; mb; a; b; Lv ivs] =>
@@ -70,6 +91,27 @@ Definition entry_C15 (sub : Z) (arg : sx) : sx :=
     match get_LQc moms with
     | Some ms => let '(e, v) := expectation_and_variance ms in Lv [of_LQc e; of_LQc v]
     | None => sx_err 1
+    end
+  | 6, Lv [bd; mb; dims] =>
+    match get_bool bd, get_bool mb, get_dims dims with
+    | Some bd, Some mb, Some dims =>
+      match set_grid_weights bd mb dims with
+      | Some ws => Lv [Zv 1; of_LLQc ws; of_LQc (tensor_weights ws)]
+      | None => Lv [Zv 0]
+      end
+    | _, _, _ => sx_err 1
+    end
+  | 7, Lv [bd; Lv comps] =>
+    match get_bool bd, opt_all (map get_comp comps) with
+    | Some bd, Some comps => of_opt_list (combined_weights_req bd comps)
+    | _, _ => sx_err 1
+    end
+  | 8, Lv [Zv k; w; vals] =>
+    match get_LQc w, get_LLQc vals with
+    | Some w, Some vals =>
+      let K := Z.to_nat k in
+      Lv [of_LQc (integrate_rule (K + K) w (map ev_function vals)); of_ev (ev_combi K w vals); of_ev (ev_nodes K w vals)]
+    | _, _ => sx_err 1
     end
   | _, _ => sx_err 0
   end.
